@@ -485,6 +485,11 @@ class C06(RunSpec):
         p["levels"] = [2, 2, 3, 1]
         p["gscs"] = ["melimit", "melimit", "evals", "allstopped", "rootstopped"]
         p["hibernation_p"] = 0.3
+        if idx % 8 == 7:
+            # (reuse pair, see reuse_every) stateless-looking stop conditions must stay stateless across trees
+            p["lscs"] = ["steady", "steady", "melimit", "children"]
+            p["gscs"] = ["melimit"]
+            p["fams"] = ["rastrigin", "sphere", "funnel"]
         if idx % 6 == 0:
             # CMA-ES run to internal termination: flat objective, tiny sigma
             p["leaf"] = "cma"
@@ -496,6 +501,11 @@ class C06(RunSpec):
     def make_case(self, seed, idx, tier):
         d = super().make_case(seed, idx, tier)
         rng = gen.case_rng(self.prop, seed, idx, "post")
+        if d.get("reuse") and d["gsc"]["k"] == "melimit":
+            d["gsc"]["n"] = max(d["gsc"]["n"], 7)
+            for lv in d["levels"]:
+                if lv["lsc"]["k"] == "steady":
+                    lv["lsc"]["dev"] = rng.choice([1e-3, 1e-2, 1e-1])
         if idx % 6 == 0 and d["levels"][-1]["engine"] == "cma":
             d["levels"][-1]["lsc"] = {"k": "dontstop"}
             d["levels"][-1]["gens"] = 6
@@ -526,9 +536,9 @@ class C07(RunSpec):
 
     def profile(self, rng, idx, tier):
         p = {"dim": (2, 3)}
-        p["root"] = _cycle(ROOT_ENGINES + ["custom", "custom_ea"], idx)
-        p["leaf"] = _cycle(ALL_LEAVES + ["custom", "custom_ea"], idx, 1)
-        p["inner"] = _cycle(INNER_ENGINES + ["custom", "custom_ea"], idx, 2)
+        p["root"] = _cycle(ROOT_ENGINES + ["custom", "custom_ea", "custom_ea2"], idx)
+        p["leaf"] = _cycle(ALL_LEAVES + ["custom", "custom_ea", "custom_ea2"], idx, 1)
+        p["inner"] = _cycle(INNER_ENGINES + ["custom", "custom_ea", "custom_ea2"], idx, 2)
         p["levels"] = [2, 3, 3, 1]
         p["gscs"] = ["melimit", "evals"]
         p["entry"] = "tree"
@@ -540,6 +550,7 @@ class C07(RunSpec):
             ("C07.round_creating_2_children", 1, "round creating >=2 children"),
             ("C07.custom_deme_class_seen.custom", 1, "custom deme class registered for a new config class"),
             ("C07.custom_deme_class_seen.custom_ea", 1, "custom deme class registered for a new config class derived from a built-in one"),
+            ("C07.custom_deme_class_seen.custom_ea2", 1, "custom deme class registered for a config class derived from another registered custom config class"),
             ("C07.seeds_checked", 20, "seeds checked"),
         ]
 
